@@ -197,6 +197,8 @@ type cellRun struct {
 	released   []string
 	cancelObs  string // prompt | moot | blocked-by-ctx-ignoring-node | returned-after-release | never
 	blockedObs bool   // the call was (correctly) still pending while a primary/fallback hung without any success
+
+	aged eth2wrap.Client // part 5: a client built (and used once) more than a selector period ago
 }
 
 func (c *cellRun) tracef(format string, a ...any) { // c.mu held
@@ -342,7 +344,40 @@ func newCellRun(kc *kit.Case, spec *cellSpec) (*cellRun, error) {
 	return c, nil
 }
 
+// freshProbeReturns calls the cell's method through a brand-new client over the same nodes (used
+// only after clean-up released every gate) and reports whether that call returned.
+func (c *cellRun) freshProbeReturns() bool {
+	var prim, fall []eth2wrap.Client
+	for _, n := range c.nodes[:c.nP] {
+		prim = append(prim, n)
+	}
+	for _, n := range c.nodes[c.nP:] {
+		fall = append(fall, n)
+	}
+	m := eth2wrap.NewMultiForT(prim, fall)
+	ctx, cancel := context.WithTimeout(context.Background(), 20*time.Second)
+	defer cancel()
+	done := make(chan struct{})
+	go func() {
+		defer close(done)
+		if c.meth.callCell != nil {
+			_, _ = c.meth.callCell(ctx, m, c)
+		} else {
+			_, _ = c.meth.call(ctx, m)
+		}
+	}()
+	select {
+	case <-done:
+		return ctx.Err() == nil
+	case <-time.After(25 * time.Second):
+		return false
+	}
+}
+
 func (c *cellRun) multi() eth2wrap.Client {
+	if c.aged != nil {
+		return c.aged
+	}
 	var prim, fall []eth2wrap.Client
 	for _, n := range c.nodes[:c.nP] {
 		prim = append(prim, n)
@@ -629,6 +664,9 @@ type verdicts struct {
 func (v *verdicts) violation(rule, what string) {
 	c := v.c
 	sig := fmt.Sprintf("eth2wrap.multi/%s/%s", c.meth.sigStyle(), rule)
+	if c.aged != nil {
+		sig += "/client-older-than-selector-period"
+	}
 	violSeen.Add(1)
 	v.fired = append(v.fired, sig)
 	c.mu.Lock()
@@ -873,6 +911,19 @@ func (c *cellRun) evaluate(cleanOK bool) {
 	fbEntered, fbEntryCancelled, fbEntryBad, toFinish := c.fbEntered, c.fbEntryCancelled, c.fbEntryBad, c.cancelByHarnessToFinish
 	c.mu.Unlock()
 
+	if len(results) == 0 && c.freshProbeReturns() {
+		// Causal, not timed: every scripted node has been released and the caller's context has ended,
+		// so nothing the environment controls is still withheld; a FRESH client over the very same
+		// (released) nodes answers the same call while the original call is still stuck.
+		c.mu.Lock()
+		still := c.done == 0
+		c.mu.Unlock()
+		if still {
+			v.violation("call-never-returns/fresh-call-over-the-same-released-nodes-returns",
+				fmt.Sprintf("%s: %s, yet the call has not returned after every node was released and the caller's context was cancelled, while a fresh client over the same nodes answers the same call at once", c.meth.Name, c.stallAt))
+			return
+		}
+	}
 	if c.stallKind == "never" || !cleanOK || len(results) == 0 {
 		R.Inconclusive("case %d: the call or a node goroutine did not finish within the watchdog (stall=%q kind=%q)", c.kc.Idx, c.stallAt, c.stallKind)
 		return
